@@ -321,16 +321,16 @@ impl chain::Listen for Gatekeeper {
         // Expired user deletion is delayed. Users are deleted when their subscription is outdated, not expired.
         let outdated_users = self.get_outdated_users(height);
         if !outdated_users.is_empty() {
-            // Remove the outdated users from memory first.
-            {
-                let mut registered_users = self.registered_users.lock().unwrap();
-                // Removing each outdated user in a loop is more efficient than retaining non-outdated users
-                // because retaining would loop over all the available users which is always more than the outdated ones.
-                for outdated_user in outdated_users.iter() {
-                    registered_users.remove(outdated_user);
-                }
+            // Remove the outdated users from memory first. The users lock is kept until they are gone from the database too:
+            // a user registering again in between would be taken for a new one and clash with the row that is still there.
+            let mut registered_users = self.registered_users.lock().unwrap();
+            // Removing each outdated user in a loop is more efficient than retaining non-outdated users
+            // because retaining would loop over all the available users which is always more than the outdated ones.
+            for outdated_user in outdated_users.iter() {
+                registered_users.remove(outdated_user);
             }
             self.dbm.lock().unwrap().batch_remove_users(&outdated_users);
+            drop(registered_users);
         }
 
         // Update last known block height
